@@ -187,3 +187,144 @@ Proof. exact (fun K addr => error_or_nothing K rules_validators (node_wiring add
 Print Assumptions C01_error_or_nothing.
 (* Outside these theorems: the Go select choice when a decision and the deadline are ready at the same
    instant (either order is an event list, both are covered). *)
+
+(* ---- composition with C12, C07, C03, C02 (and C05, C19) (proofs/Compose_provider.v) -------------------------
+   Two oracle values of the machine are instantiated: VerifyBid / allowance in [Arrive] ([signed_history],
+   as in C01_gate_signed) and ConstructPreConfirmation in [TakeDecision]: [Compose_provider.constructed_history
+   K cr] says that the answer a handler consumes is the signer model's ConstructPreConfirmation
+   ([Compose_provider.kres K cr], a rendering of Signer.construct_preconf K cr) on the bid that very handler
+   holds.  [Compose_provider.to_wire b] is that bid as the *Bid handed to the signer (digest and signature
+   present).  K is an arbitrary hash function, cr an arbitrary crypto library.
+   Non-vacuity: both premises hold of the accepting history for every verified, funded, well-formed bid
+   (Compose_provider.accepting_run_signed, accepting_run_constructed, accepting_run_writes), instance
+   Compose_provider.ex_provider_premises / ex_provider_writes. *)
+From MevVerif Require lib.Abi proofs.Compose_provider.
+
+(* C01 o C12 o C07 o C03 o C02.  Every commitment written to a bidder
+   (a) embeds the very bid its handler read from the wire, which VerifyBid of the signer model accepted (signer a,
+       allowance yes), whose digest is its own bid hash, which satisfies the published format rules and whose
+       digest the engine accepted;
+   (c) has the digest and signature ConstructPreConfirmation of the signer model produces for that bid (the
+       signature is the node key's answer for the digest) and, under the recover-after-sign premise of
+       C02_roundtrip_commitment, verifies to the provider's own address;
+   (b) for Go int64 numbers: the bid digest is the generic EIP-712 PreConfBid hash and the commitment digest the
+       generic EIP-712 PreConfCommitment hash of the bid's values, bid digest and bid signature (C03; accepted bids
+       lie in its domain: amount in (0, 2^64), numbers positive);
+   (d) was preceded by a successful Send to the configured contract whose calldata decodes (C07_args) to amount,
+       block number, tx string, decay window, bid signature and that commitment's signature. *)
+Theorem C01_written_commitment_is_eip712_and_settled :
+  forall (K : bytes -> bytes) (cr : crypto) addr evs h c,
+  signed_history K cr evs ->
+  Compose_provider.constructed_history K cr rules_validators (node_wiring addr) evs ->
+  In (HWrite h c) (heff (run K rules_validators (node_wiring addr) evs)) ->
+  let S := run K rules_validators (node_wiring addr) evs in
+  let b := c_bid c in
+  let w := Compose_provider.to_wire b in
+  (exists allowf a,
+     In (Arrive h role_bidder (oracle_of K cr allowf (Some w))) evs /\
+     verify_bid K cr w = Ok a /\ allowf a = true /\ bid_hash K w = Ok (b_dig b) /\
+     provider_bid_ok (split comma (b_tx b)) (b_amt b) (b_bn b) (b_dig b) (b_ds b) (b_de b) = true /\
+     (exists sid, In (Lookup sid (b_dig b) status_accepted) evs)) /\
+  (construct_preconf K cr (Some w) =
+     Ok {| Eip712.c_bid := Some w; Eip712.c_dig := Some (c_dig c); Eip712.c_sig := Some (c_sig c); Eip712.c_prov := [] |} /\
+   sign_normalised cr (c_dig c) = Ok (c_sig c)) /\
+  (Compose_provider.int64_fields b ->
+   exists A, parse_dec (b_amt b) = Some A /\ 0 < A < 18446744073709551616 /\
+     b_dig b = eip712_bid K (b_tx b) A (Z.to_N (b_bn b)) (Z.to_N (b_ds b)) (Z.to_N (b_de b)) /\
+     c_dig c = eip712_commitment K (b_tx b) A (Z.to_N (b_bn b)) (Z.to_N (b_ds b)) (Z.to_N (b_de b))
+                                 (b_dig b) (b_sig b)) /\
+  (forall pk,
+     (forall hh sg, sign cr hh = Ok sg ->
+        length sg = 65%nat /\ (nth_error sg 64 = Some 0 \/ nth_error sg 64 = Some 1) /\
+        recover cr hh sg = Ok pk /\ verify_rs cr pk hh (firstn 64 sg) = true) ->
+     verify_preconf K cr {| Eip712.c_bid := Some w; Eip712.c_dig := Some (c_dig c); Eip712.c_sig := Some (c_sig c);
+                            Eip712.c_prov := [] |} = Ok (addr_of cr pk)) /\
+  (In (HStored h true) (heff S) /\
+   exists amt, parse_bigint (b_amt b) = Some amt /\ (0 < amt < 18446744073709551616)%Z /\
+     In (HSend h addr (calldata K amt c)) (heff S) /\
+     ((4 <= length (K (Abi.method_sig store_name store_tys)))%nat -> Compose_provider.int64_fields b ->
+      wf_bytes (b_tx b) -> wf_bytes (b_sig b) -> wf_bytes (c_sig c) ->
+      Abi.blen (Abi.encode (store_args amt c)) < Abi.two63 ->
+      Abi.decode_call store_tys (calldata K amt c) =
+      Some (Abi.selector K (Abi.method_sig store_name store_tys),
+            [Abi.VUint64 (Z.to_N amt); Abi.VUint64 (Z.to_N (b_bn b)); Abi.VString (b_tx b);
+             Abi.VUint64 (Z.to_N (b_ds b)); Abi.VUint64 (Z.to_N (b_de b));
+             Abi.VBytes (b_sig b); Abi.VBytes (c_sig c)]))).
+Proof. exact Compose_provider.written_commitment_is_eip712_and_settled. Qed.
+Print Assumptions C01_written_commitment_is_eip712_and_settled.
+
+(* A fact about the machine alone, used above: every written commitment was built by its handler from a
+   ConstructPreConfirmation answer (digest, signature) it consumed while holding the embedded bid. *)
+Theorem C01_written_from_decision : forall K V W evs h c,
+  In (HWrite h c) (heff (run K V W evs)) ->
+  exists pre post auto,
+    evs = pre ++ TakeDecision h (KOk (c_dig c) (c_sig c)) :: post /\
+    nget h (hs (run K V W pre)) = Some (HInSvc (c_bid c) auto).
+Proof. exact Compose_provider.written_from_decision. Qed.
+Print Assumptions C01_written_from_decision.
+
+(* The accepting history exists for every bid: when VerifyBid of the signer model accepts the bid as read from the
+   wire, the allowance check says yes for its signer, the format rules hold and ConstructPreConfirmation of the
+   signer model succeeds, then the history "arrive, engine takes the bid and accepts its digest, decision taken,
+   store ok, write ok" ends with exactly that commitment written (and satisfies both premises above). *)
+Theorem C01_accepting_run_writes :
+  forall (K : bytes -> bytes) (cr : crypto) addr (w : Eip712.bid) (allowf : bytes -> bool) a d sg h sid,
+  verify_bid K cr w = Ok a -> allowf a = true ->
+  vbid rules_validators (to_engine (of_wire w)) = true ->
+  Compose_provider.kres K cr w = KOk d sg ->
+  let evs := Compose_provider.accepting_run K cr w allowf h sid in
+  Compose_provider.first_write h (heff (run K rules_validators (node_wiring addr) evs)) =
+    Some {| c_bid := of_wire w; c_dig := d; c_sig := sg |} /\
+  signed_history K cr evs /\
+  Compose_provider.constructed_history K cr rules_validators (node_wiring addr) evs.
+Proof.
+  exact (fun K cr addr w allowf a d sg h sid V A F Kr =>
+    conj (Compose_provider.accepting_run_writes K cr addr w allowf a d sg h sid V A F Kr)
+      (conj (Compose_provider.accepting_run_signed K cr w allowf h sid)
+            (Compose_provider.accepting_run_constructed K cr addr w allowf a h sid V A F))).
+Qed.
+Print Assumptions C01_accepting_run_writes.
+
+(* C19 o C05 o C01 o C12 o C02 o C03: the provider's side of the full round trip (the bidder's side is
+   C05_round_trip_honest, where the glue is spelled out).  For a request accepted by the bidder API rules and
+   signed by an honest bidder node (SendBid with both signer oracles instantiated), on a provider node with the
+   same hash function and signature library: the bidder's message as decoded passes VerifyBid recovering the
+   bidder's address, satisfies the provider's published format rules (what the bidder API accepts, the provider
+   accepts), ConstructPreConfirmation succeeds on it, and -- allowance yes -- the accepting history satisfies both
+   instantiation premises and writes the commitment embedding exactly the bid the bidder sent. *)
+From MevVerif Require model.BidderApi model.PreconfBidder proofs.NoPanic_proofs proofs.Compose_bidder.
+Theorem C01_round_trip_honest :
+  forall (K : bytes -> bytes) (rc : bytes -> bytes -> outcome bytes) (vr : bytes -> bytes -> bytes -> bool)
+         (ao : bytes -> bytes) (signB signP : bytes -> outcome bytes),
+  (forall m, (1 <= length (K m) <= 64)%nat) ->
+  forall pkB pkP : bytes,
+  (forall hh sg, signB hh = Ok sg ->
+     length sg = 65%nat /\ (nth_error sg 64 = Some 0 \/ nth_error sg 64 = Some 1) /\
+     rc hh sg = Ok pkB /\ vr pkB hh (firstn 64 sg) = true) ->
+  (forall hh sg, signP hh = Ok sg ->
+     length sg = 65%nat /\ (nth_error sg 64 = Some 0 \/ nth_error sg 64 = Some 1) /\
+     rc hh sg = Ok pkP /\ vr pkP hh (firstn 64 sg) = true) ->
+  (forall hh, exists sg, signP hh = Ok sg) ->
+  forall rq : BidderApi.request,
+  bidder_bid_ok (BidderApi.r_txs rq) (BidderApi.r_amount rq) (BidderApi.r_bn rq) (BidderApi.r_ds rq)
+                (BidderApi.r_de rq) = true ->
+  (BidderApi.r_bn rq <= int64_max)%Z -> (BidderApi.r_ds rq <= int64_max)%Z -> (BidderApi.r_de rq <= int64_max)%Z ->
+  forall view D rn,
+  PreconfBidder.send_bid
+    (Compose_bidder.signer_oracles K {| recover := rc; verify_rs := vr; addr_of := ao; sign := signB |})
+    (Compose_bidder.args_of (BidderApi.forward rq)) view D = PreconfBidder.SRun rn ->
+  let crP := {| recover := rc; verify_rs := vr; addr_of := ao; sign := signP |} in
+  let wB := NoPanic_proofs.conv_bid (PreconfBidder.r_sent rn) in
+  verify_bid K crP wB = Ok (ao pkB) /\
+  vbid rules_validators (to_engine (of_wire wB)) = true /\
+  exists d sg,
+    Compose_provider.kres K crP wB = KOk d sg /\
+    forall addr h sid (allowf : bytes -> bool), allowf (ao pkB) = true ->
+      let evs := Compose_provider.accepting_run K crP wB allowf h sid in
+      signed_history K crP evs /\
+      Compose_provider.constructed_history K crP rules_validators (node_wiring addr) evs /\
+      Compose_provider.first_write h (heff (run K rules_validators (node_wiring addr) evs)) =
+        Some {| c_bid := of_wire wB; c_dig := d; c_sig := sg |} /\
+      Compose_provider.pbid_of (of_wire wB) = PreconfBidder.r_sent rn.
+Proof. exact Compose_provider.round_trip_honest_provider_side. Qed.
+Print Assumptions C01_round_trip_honest.
